@@ -45,6 +45,13 @@ theorem raise {Q : α → Prop} {e : Err} : Ret Q (Pysnark.raise e : M α) := by
 
 theorem tyErr {Q : α → Prop} : Ret Q (Pysnark.tyErr : M α) := Ret.raise
 
+/-- `if c then m else raise e`: whatever completes came from `m` -/
+theorem iteElseRaise {Q : α → Prop} {c : Prop} [Decidable c] {m : M α} {e : Err} (h : Ret Q m) :
+    Ret Q (if c then m else Pysnark.raise e) := by
+  split
+  · exact h
+  · exact Ret.raise
+
 theorem mono {Q Q' : α → Prop} {m : M α} (h : Ret Q m) (hq : ∀ a, Q a → Q' a) : Ret Q' m :=
   fun s a s' hh => hq a (h s a s' hh)
 
@@ -358,12 +365,12 @@ theorem iteAux_ret (cond : LinComb) : ∀ (fuel : Nat) (t f : Val), BoolV t → 
         cases f
         case list fs =>
           dsimp only
-          exact Ret.bind (zipWithM'_ret (fun a b ha hb => ih a b ha hb) ts fs (BoolV_list.mp ht) (BoolV_list.mp hf))
-            (fun rs hrs => Ret.pure (BoolV_list.mpr hrs))
+          exact Ret.iteElseRaise (Ret.bind (zipWithM'_ret (fun a b ha hb => ih a b ha hb) ts fs (BoolV_list.mp ht) (BoolV_list.mp hf))
+            (fun rs hrs => Ret.pure (BoolV_list.mpr hrs)))
         case tuple fs =>
           dsimp only
-          exact Ret.bind (zipWithM'_ret (fun a b ha hb => ih a b ha hb) ts fs (BoolV_list.mp ht) (BoolV_tuple.mp hf))
-            (fun rs hrs => Ret.pure (BoolV_list.mpr hrs))
+          exact Ret.iteElseRaise (Ret.bind (zipWithM'_ret (fun a b ha hb => ih a b ha hb) ts fs (BoolV_list.mp ht) (BoolV_tuple.mp hf))
+            (fun rs hrs => Ret.pure (BoolV_list.mpr hrs)))
         all_goals exact Ret.tyErr
       all_goals
         dsimp only
